@@ -299,4 +299,11 @@ theorem invloopCore_count (table : List Nat) (resetPos : Bool) (st : InvState) (
   · split <;> simp
   · simp only; omega
 
+/-! ### channel / voice agreement -/
+
+theorem cvStep_coherent (s : ChanVoice) (t : CVStep) (h : s.coherent = true) : (cvStep s t).coherent = true := by
+  obtain ⟨cs, mp, vs, q, qs, pa⟩ := s
+  cases t <;> cases mp <;> cases q <;> cases pa <;>
+    simp [cvStep, ChanVoice.coherent] at h ⊢ <;> (try omega) <;> (try (split <;> simp_all)) <;> (try omega)
+
 end Xmp.Wrap
